@@ -5,15 +5,14 @@
   `ieval_simE`: if the model's outcome is a value `r`, every run `ievalO π` yields a value that concretises `r`
   (`Conc`: equal up to the order of the arrays the model tagged `enum`), for every covered expression.
 -/
-import Jmes.Proofs.C15BConcLemmas
+import Jmes.Proofs.C15BKeysLemmas
 namespace Jmes
 open Invar
 
-/-- constructs for which the oracle theorem is proved: everything except the builtins excluded by `Fn.coveredE`
-    and the expression-argument functions `sort_by`, `max_by`, `min_by`, `group_by`, and `zip`. -/
+/-- constructs for which the oracle theorem is proved: every node type; among the eager builtins everything except
+    those excluded by `Fn.coveredM` (`sum`, `avg`, `max`, `min`). -/
 def INode.coveredE : INode → Bool
-  | .call f _ => f.coveredE
-  | .groupBy .. | .maxBy .. | .minBy .. | .sortBy .. | .zip _ => false
+  | .call f _ => f.coveredM
   | _ => true
 
 /-- per-node requirement: literals without map-ordered arrays, distinct member keys, a covered construct -/
@@ -21,7 +20,7 @@ def nodeOkE (n : INode) : Bool := INode.litOk (Val.Good true) n && INode.keysNod
 
 theorem nodeOkE_lit {v : Val} (h : nodeOkE (.lit v) = true) : v.Good true = true := by
   simpa [nodeOkE, INode.litOk, INode.keysNodup, INode.coveredE] using h
-theorem nodeOkE_call {f : Fn} {args : List INode} (h : nodeOkE (.call f args) = true) : Fn.coveredE f = true := by
+theorem nodeOkE_call {f : Fn} {args : List INode} (h : nodeOkE (.call f args) = true) : Fn.coveredM f = true := by
   simpa [nodeOkE, INode.litOk, INode.keysNodup, INode.coveredE] using h
 theorem nodeOkE_selectObject {c : INode} {fs : List (Bytes × INode)} (h : nodeOkE (.selectObject c fs) = true) :
     (fs.map Prod.fst).Nodup := by
@@ -91,7 +90,7 @@ theorem ieval_simE {root root' : Val} (hroot : Conc root root') :
     simp only [INode.all, Bool.and_eq_true] at h
     simp only [ieval, ievalO]
     exact SimG.bind (ievalList_simE hroot args cur cur' env env' h.2 hc hv _) fun vs vs' hvs =>
-      applyFn_simE _ f (nodeOkE_call h.1) hvs
+      applyFn_simM _ f (nodeOkE_call h.1) hvs
   | .defineVariables vars child, cur, cur', env, env', h, hc, hv, π => by
     simp only [INode.all, Bool.and_eq_true] at h
     simp only [ieval, ievalO]
@@ -267,7 +266,9 @@ theorem ieval_simE {root root' : Val} (hroot : Conc root root') :
   | .sliceStepCurrent a b st, cur, cur', env, env', h, hc, hv, π => sliceStep_simE hc a b st
   | .groupBy a e, cur, cur', env, env', h, hc, hv, π => by
     simp only [INode.all, Bool.and_eq_true] at h
-    exact absurd h.1.1 (by simp [nodeOkE, INode.coveredE])
+    simp only [ieval, ievalO]
+    exact SimG.bind (ieval_simE hroot a cur cur' env env' h.1.2 hc hv _) fun v v' hv' =>
+      groupBy_simE (fun i x x' hx => ieval_simE hroot e x x' env env' h.2 hx hv _) hv'
   | .map e a, cur, cur', env, env', h, hc, hv, π => by
     simp only [INode.all, Bool.and_eq_true] at h
     simp only [ieval, ievalO]
@@ -275,13 +276,19 @@ theorem ieval_simE {root root' : Val} (hroot : Conc root root') :
       mapArray_simE (fun i x x' hx => ieval_simE hroot e x x' env env' h.1.2 hx hv _) hv'
   | .maxBy a e, cur, cur', env, env', h, hc, hv, π => by
     simp only [INode.all, Bool.and_eq_true] at h
-    exact absurd h.1.1 (by simp [nodeOkE, INode.coveredE])
+    simp only [ieval, ievalO]
+    exact SimG.bind (ieval_simE hroot a cur cur' env env' h.1.2 hc hv _) fun v v' hv' =>
+      arrayPickBy_simE Key.gtMax_irrefl (fun a b c => Key.gtMax_trans) (fun i x x' hx => ieval_simE hroot e x x' env env' h.2 hx hv _) hv'
   | .minBy a e, cur, cur', env, env', h, hc, hv, π => by
     simp only [INode.all, Bool.and_eq_true] at h
-    exact absurd h.1.1 (by simp [nodeOkE, INode.coveredE])
+    simp only [ieval, ievalO]
+    exact SimG.bind (ieval_simE hroot a cur cur' env env' h.1.2 hc hv _) fun v v' hv' =>
+      arrayPickBy_simE Key.ltMin_irrefl (fun a b c => Key.ltMin_trans) (fun i x x' hx => ieval_simE hroot e x x' env env' h.2 hx hv _) hv'
   | .sortBy a e, cur, cur', env, env', h, hc, hv, π => by
     simp only [INode.all, Bool.and_eq_true] at h
-    exact absurd h.1.1 (by simp [nodeOkE, INode.coveredE])
+    simp only [ieval, ievalO]
+    exact SimG.bind (ieval_simE hroot a cur cur' env env' h.1.2 hc hv _) fun v v' hv' =>
+      sortArrayBy_simE (fun i x x' hx => ieval_simE hroot e x x' env env' h.2 hx hv _) hv'
   | .merge args, cur, cur', env, env', h, hc, hv, π => by
     simp only [INode.all, Bool.and_eq_true] at h
     simp only [ieval, ievalO]
@@ -293,7 +300,15 @@ theorem ieval_simE {root root' : Val} (hroot : Conc root root') :
     exact ievalNotNull_simE hroot args cur cur' env env' h.2 hc hv _
   | .zip args, cur, cur', env, env', h, hc, hv, π => by
     simp only [INode.all, Bool.and_eq_true] at h
-    exact absurd h.1 (by simp [nodeOkE, INode.coveredE])
+    simp only [ieval, ievalO]
+    refine SimG.bind (ievalZip_simE hroot args cur cur' env env' h.2 hc hv _) fun vs vs' hvs =>
+      SimG.bind (zipArgs_simE hvs) fun cols cols' hcols => ?_
+    cases hcols with
+    | nil => exact SimG.pure (conc_plainArr concL_nil)
+    | cons hab t =>
+      simp only
+      rw [zip_count_eq _ t, ← concL_length hab]
+      exact SimG.pure (conc_plainArr (zipRows_conc _ (.cons hab t)))
 theorem ievalList_simE {root root' : Val} (hroot : Conc root root') :
     ∀ (ns : List INode) (cur cur' : Val) (env env' : Env), INode.allL nodeOkE ns = true → Conc cur cur' →
       ConcF env env' → ∀ π : Oracle, SimG ConcL (ievalList root ns cur env) (ievalListO π root' ns cur' env')
@@ -327,6 +342,20 @@ theorem ievalMerge_simE {root root' : Val} (hroot : Conc root root') :
     | obj kvs =>
       obtain ⟨kvs', rfl, hk⟩ := conc_obj hv'
       exact ievalMerge_simE hroot ns cur cur' env env' _ _ h.2 hc hv (concF_foldInsert hk ha) _
+    | _ => exact SimG.errType
+theorem ievalZip_simE {root root' : Val} (hroot : Conc root root') :
+    ∀ (ns : List INode) (cur cur' : Val) (env env' : Env), INode.allL nodeOkE ns = true → Conc cur cur' →
+      ConcF env env' → ∀ π : Oracle, SimG ConcL (ievalZip root ns cur env) (ievalZipO π root' ns cur' env')
+  | [], cur, cur', env, env', h, hc, hv, π => SimG.ok concL_nil
+  | n :: ns, cur, cur', env, env', h, hc, hv, π => by
+    simp only [INode.allL, Bool.and_eq_true] at h
+    simp only [ievalZip, ievalZipO]
+    refine SimG.bind (ieval_simE hroot n cur cur' env env' h.1 hc hv _) fun v v' hv' => ?_
+    cases v with
+    | arr t xs =>
+      obtain ⟨t', xs', rfl, _⟩ := conc_arr hv'
+      exact SimG.bind (ievalZip_simE hroot ns cur cur' env env' h.2 hc hv _) fun vs vs' hvs =>
+        SimG.pure (concL_cons hv' hvs)
     | _ => exact SimG.errType
 theorem ievalNotNull_simE {root root' : Val} (hroot : Conc root root') :
     ∀ (ns : List INode) (cur cur' : Val) (env env' : Env), INode.allL nodeOkE ns = true → Conc cur cur' →
